@@ -846,6 +846,28 @@ func MuUnlock(label string, l Locker) {
 	}
 }
 
+// MuUnlockQuiet releases a lock taken with MuLock without making the release a scheduling point. For the
+// harness's own observation hooks: what they read under the lock must still be true when the caller acts on it.
+func MuUnlockQuiet(l Locker) {
+	s := cur()
+	if s == nil || atomic.LoadInt32(&s.dead) != 0 {
+		l.Unlock()
+
+		return
+	}
+
+	if s.race != nil && s.cur != nil {
+		s.race.release(s.cur, l)
+	}
+
+	l.Unlock()
+
+	t := s.cur
+	s.mu.Lock()
+	s.releaseLock(l, LockW, t)
+	s.mu.Unlock()
+}
+
 // MuRLock replaces X.RLock().
 func MuRLock(label string, l RLocker) {
 	s := cur()
